@@ -32,6 +32,13 @@ var trList = []trSpec{
 	{"Queue", "queue.go", "limitedBroadcast.Less", "bcastLess"},
 	{"Keyring", "keyring.go", "ValidateKey", "validateKey"},
 	{"State", "state.go", "nodeState.DeadOrLeft", "deadOrLeft"},
+	// loops over the member list / the allow-list (existence test, count, filter)
+	{"Lists", "memberlist.go", "Memberlist.anyAlive", "anyAlive"},
+	{"Lists", "memberlist.go", "Memberlist.NumMembers", "numMembers"},
+	{"Lists", "memberlist.go", "Memberlist.Members", "members"},
+	{"Lists", "config.go", "Config.IPMustBeChecked", "ipMustBeChecked"},
+	{"Lists", "config.go", "Config.IPAllowed", "ipAllowed"},
+	{"Lists", "util.go", "randomOffset", "randomOffset"},
 	// the exclusion rules handed to kRandomNodes (function literals, see closureDecls)
 	{"Select", "state.go", "Memberlist.gossip/exclude", "gossipExclude"},
 	{"Select", "state.go", "Memberlist.probeNode/exclude", "relayExclude"},
@@ -76,16 +83,20 @@ func flat(e ast.Expr) string {
 }
 
 type translator struct {
-	fset    *token.FileSet
-	bound   map[string]bool   // variables in scope
-	alias   map[string]string // o -> than
-	params  []string          // free variables in order of first use (become parameters)
-	seen    map[string]bool
-	dropped []string
-	mutated []string // receiver fields assigned, in order
-	hasPan  bool
-	resKind string // "int" | "bool" | "err" | "state"
-	err     error
+	fset     *token.FileSet
+	bound    map[string]bool     // variables in scope
+	alias    map[string]string   // o -> than
+	params   []string            // free variables in order of first use (become parameters)
+	loopVar  string              // inside a range loop: the element variable
+	loopList string              // ... and the list it ranges over
+	lists    []string            // list parameters in order of first use
+	feats    map[string][]string // list parameter -> features of an element, in order of first use
+	seen     map[string]bool
+	dropped  []string
+	mutated  []string // receiver fields assigned, in order
+	hasPan   bool
+	resKind  string // "int" | "bool" | "err" | "state"
+	err      error
 }
 
 func (t *translator) fail(f string, a ...any) string {
@@ -95,7 +106,27 @@ func (t *translator) fail(f string, a ...any) string {
 	return "UNSUPPORTED"
 }
 
+// mentions reports whether the flattened name v has the loop variable as one of its components.
+func mentions(v, lv string) bool {
+	for _, part := range strings.Split(v, "_") {
+		if part == lv {
+			return true
+		}
+	}
+	return false
+}
+
 func (t *translator) use(v string) string {
+	if t.loopVar != "" && mentions(v, t.loopVar) {
+		// a property of the element the loop is looking at: a component of the list parameter's elements
+		for _, f := range t.feats[t.loopList] {
+			if f == v {
+				return v
+			}
+		}
+		t.feats[t.loopList] = append(t.feats[t.loopList], v)
+		return v
+	}
 	if !t.bound[v] && !t.seen[v] {
 		t.seen[v] = true
 		t.params = append(t.params, v)
@@ -154,8 +185,8 @@ func (t *translator) intExpr(e ast.Expr) string {
 	case *ast.CallExpr:
 		fn := exprStr(t.fset, x.Fun)
 		if fn == "len" && len(x.Args) == 1 {
-			if id, ok := x.Args[0].(*ast.Ident); ok {
-				return t.use(id.Name + "_len")
+			if f := flat(x.Args[0]); f != "" {
+				return t.use(f + "_len")
 			}
 		}
 		if (fn == "int" || fn == "time.Duration" || fn == "int32" || fn == "int64" || fn == "uint32") && len(x.Args) == 1 {
@@ -185,6 +216,23 @@ func (t *translator) propExpr(e ast.Expr) string {
 	case *ast.UnaryExpr:
 		if x.Op == token.NOT {
 			return "(¬ " + t.propExpr(x.X) + ")"
+		}
+	case *ast.CallExpr:
+		// a Boolean method of a record, possibly applied to plain variables: one more flag input
+		if se, ok := x.Fun.(*ast.SelectorExpr); ok {
+			if f := flat(se); f != "" {
+				okArgs := true
+				for _, a := range x.Args {
+					if fa := flat(a); fa != "" {
+						f += "_" + fa
+					} else {
+						okArgs = false
+					}
+				}
+				if okArgs {
+					return "(" + t.use(f) + " ≠ 0)"
+				}
+			}
 		}
 	case *ast.Ident:
 		if x.Name == "true" {
@@ -250,6 +298,11 @@ func (t *translator) stmts(list []ast.Stmt, k string) string {
 			return k
 		}
 		switch t.resKind {
+		case "list":
+			if id, ok := x.Results[0].(*ast.Ident); ok && t.bound[id.Name] {
+				return t.ret(id.Name)
+			}
+			return t.fail("list result %s", exprStr(t.fset, x.Results[0]))
 		case "bool":
 			return t.ret("decide " + t.propExpr(x.Results[0]))
 		case "err":
@@ -278,6 +331,13 @@ func (t *translator) stmts(list []ast.Stmt, k string) string {
 						t.alias[l.Name] = r.Name
 						return t.stmts(rest, k)
 					}
+				}
+			}
+			// acc := make([]T, 0, n): an empty accumulator
+			if ce, ok := x.Rhs[0].(*ast.CallExpr); ok && exprStr(t.fset, ce.Fun) == "make" {
+				if l, ok := x.Lhs[0].(*ast.Ident); ok {
+					t.bound[l.Name] = true
+					return "let " + l.Name + " := []\n  " + t.stmts(rest, k)
 				}
 			}
 			var name string
@@ -311,6 +371,12 @@ func (t *translator) stmts(list []ast.Stmt, k string) string {
 			}
 			return "let " + name + " := " + rhs + "\n  " + t.stmts(rest, k)
 		}
+	case *ast.RangeStmt:
+		return t.rangeStmt(x, rest, k)
+	case *ast.DeferStmt:
+		// deferred unlocks: dropped and listed, like calls in statement position
+		t.dropped = append(t.dropped, "defer "+exprStr(t.fset, x.Call.Fun))
+		return t.stmts(rest, k)
 	case *ast.IfStmt:
 		var pre []ast.Stmt
 		if x.Init != nil {
@@ -366,6 +432,65 @@ func (t *translator) stmts(list []ast.Stmt, k string) string {
 		}
 	}
 	return t.fail("statement %s", strings.SplitN(exprStr(t.fset, s), "\n", 2)[0])
+}
+
+// rangeStmt translates `for _, v := range L { if c { ... } }` in its three supported shapes:
+// return inside (an existence test), v++ inside (a count), acc = append(acc, ..v..) inside (a filter).
+func (t *translator) rangeStmt(x *ast.RangeStmt, rest []ast.Stmt, k string) string {
+	v, ok := x.Value.(*ast.Ident)
+	L := flat(x.X)
+	if !ok || L == "" || x.Tok != token.DEFINE || len(x.Body.List) != 1 {
+		return t.fail("range loop %s", exprStr(t.fset, x.X))
+	}
+	if key, ok := x.Key.(*ast.Ident); x.Key != nil && (!ok || key.Name != "_") {
+		return t.fail("range loop with an index")
+	}
+	ifs, ok := x.Body.List[0].(*ast.IfStmt)
+	if !ok || ifs.Else != nil || ifs.Init != nil || len(ifs.Body.List) != 1 {
+		return t.fail("range body %s", exprStr(t.fset, x.X))
+	}
+	known := false
+	for _, l := range t.lists {
+		known = known || l == L
+	}
+	if !known {
+		t.lists = append(t.lists, L)
+	}
+	t.loopVar, t.loopList = v.Name, L
+	cond := t.propExpr(ifs.Cond)
+	t.loopVar, t.loopList = "", ""
+	lam := func() string {
+		fs := t.feats[L]
+		switch len(fs) {
+		case 0:
+			return "(fun _ => decide " + cond + ")"
+		case 1:
+			return "(fun " + fs[0] + " => decide " + cond + ")"
+		}
+		return "(fun (" + strings.Join(fs, ", ") + ") => decide " + cond + ")"
+	}
+	switch b := ifs.Body.List[0].(type) {
+	case *ast.ReturnStmt:
+		saved := t.snapshot()
+		thenE := t.stmts([]ast.Stmt{b}, k)
+		t.restore(saved)
+		elseE := t.stmts(rest, k)
+		return "if " + L + ".any " + lam() + " then\n  " + thenE + "\n  else\n  " + elseE
+	case *ast.IncDecStmt:
+		if id, ok := b.X.(*ast.Ident); ok && b.Tok == token.INC && t.bound[id.Name] {
+			return "let " + id.Name + " := " + id.Name + " + ((" + L + ".countP " + lam() + " : Nat) : Int)\n  " + t.stmts(rest, k)
+		}
+	case *ast.AssignStmt:
+		if len(b.Lhs) == 1 && len(b.Rhs) == 1 {
+			if id, ok := b.Lhs[0].(*ast.Ident); ok && t.bound[id.Name] {
+				if ce, ok := b.Rhs[0].(*ast.CallExpr); ok && exprStr(t.fset, ce.Fun) == "append" && len(ce.Args) == 2 && exprStr(t.fset, ce.Args[0]) == id.Name &&
+					strings.Contains(exprStr(t.fset, ce.Args[1]), v.Name) {
+					return "let " + id.Name + " := " + id.Name + " ++ " + L + ".filter " + lam() + "\n  " + t.stmts(rest, k)
+				}
+			}
+		}
+	}
+	return t.fail("range body %s", strings.SplitN(exprStr(t.fset, ifs.Body.List[0]), "\n", 2)[0])
 }
 
 func (t *translator) snapshot() map[string]bool {
@@ -436,18 +561,27 @@ func translateOne(sb *strings.Builder, fset *token.FileSet, decls map[string]*as
 		fmt.Fprintf(sb, "/-- %s: %s not found in the source -/\ndef %s_missing : Unit := ()\n\n", sp.file, sp.name, sp.lean)
 		return nil
 	}
-	t := &translator{fset: fset, bound: map[string]bool{}, alias: map[string]string{}, seen: map[string]bool{}}
+	t := &translator{fset: fset, bound: map[string]bool{}, alias: map[string]string{}, seen: map[string]bool{}, feats: map[string][]string{}}
 	t.hasPan = containsPanic(fd.Body)
 	t.resKind = "state"
 	if fd.Type.Results != nil && len(fd.Type.Results.List) == 1 {
-		switch exprStr(fset, fd.Type.Results.List[0].Type) {
-		case "bool":
+		rt := exprStr(fset, fd.Type.Results.List[0].Type)
+		switch {
+		case rt == "bool":
 			t.resKind = "bool"
-		case "error":
+		case rt == "error":
 			t.resKind = "err"
+		case strings.HasPrefix(rt, "[]"):
+			t.resKind = "list"
 		default:
 			t.resKind = "int"
 		}
+	}
+	// a named integer result starts at zero and is what a bare return hands back
+	namedRes := ""
+	if t.resKind == "int" && len(fd.Type.Results.List[0].Names) == 1 {
+		namedRes = fd.Type.Results.List[0].Names[0].Name
+		t.bound[namedRes] = true
 	}
 	// declared integer parameters are parameters of the Lean function, in order; everything else
 	// (fields of the receiver and of other parameters, lengths) is added on first use
@@ -462,7 +596,13 @@ func translateOne(sb *strings.Builder, fset *token.FileSet, decls map[string]*as
 		}
 	}
 	body := t.stmts(fd.Body.List, "FALLTHROUGH")
+	if namedRes != "" {
+		body = "let " + namedRes + " := (0 : Int)\n  " + body
+	}
 	fall := "default"
+	if namedRes != "" {
+		fall = namedRes
+	}
 	if t.resKind == "state" {
 		fall = strings.Join(t.mutated, ", ")
 		if len(t.mutated) != 1 {
@@ -481,6 +621,16 @@ func translateOne(sb *strings.Builder, fset *token.FileSet, decls map[string]*as
 	}
 	ps := append(append([]string{}, declared...), t.params...)
 	ty := map[string]string{"int": "Int", "bool": "Bool", "err": "Bool", "state": "Int"}[t.resKind]
+	elemTy := func(l string) string {
+		n := len(t.feats[l])
+		if n == 0 {
+			return "Int"
+		}
+		return strings.TrimSuffix(strings.Repeat("Int × ", n), " × ")
+	}
+	if t.resKind == "list" && len(t.lists) > 0 {
+		ty = "List (" + elemTy(t.lists[0]) + ")"
+	}
 	if t.resKind == "state" && len(t.mutated) != 1 {
 		ty = strings.TrimSuffix(strings.Repeat("Int × ", len(t.mutated)), " × ")
 	}
@@ -490,6 +640,9 @@ func translateOne(sb *strings.Builder, fset *token.FileSet, decls map[string]*as
 	sig := ""
 	if len(ps) > 0 {
 		sig = " (" + strings.Join(ps, " ") + " : Int)"
+	}
+	for _, l := range t.lists {
+		sig += " (" + l + " : List (" + elemTy(l) + "))"
 	}
 	what := map[string]string{"err": "; result: the returned error is nil", "state": "; result: the receiver field(s) " + strings.Join(t.mutated, ", ") + " afterwards"}[t.resKind]
 	fmt.Fprintf(sb, "/-- %s: %s%s -/\ndef %s%s : %s :=\n  %s\n\n", sp.file, sp.name, what, sp.lean, sig, ty, body)
